@@ -102,6 +102,7 @@ def handle (ts : Toks) : String :=
     let ev := stream.filter isEv
     let sync := stream.filter isSync
     let needs := (stream.filter (·.startsWith "need:")).map (field · 1)
+    let noNeeds := (stream.filter (·.startsWith "noneed:")).map (field · 1)
     let outcome := ((stream.filter (·.startsWith "O:")).headD "O:?").drop 2 |>.toString
     let status := ((stream.filter (·.startsWith "S:")).headD "S:?").drop 2 |>.toString
     let retv := ((stream.filter (·.startsWith "R:")).headD "R:?").drop 2 |>.toString
@@ -130,6 +131,7 @@ def handle (ts : Toks) : String :=
        | none => []) ++
       (if single && status == "returned" && !kiOutside then
          (needs.filter (fun i => !tdStarted.contains i)).map (fun i => "teardown-of-entered-group-not-run:" ++ i) else []) ++
+      (noNeeds.filter (fun i => tdStarted.contains i)).map (fun i => "teardown-of-a-group-whose-setup-did-not-complete-ran:" ++ i) ++
       (if single then
          (ev.filter (fun t => isBe t && field t 2 == "killed" && tdStarted.contains (field t 1))).map
            (fun t => "teardown-cancelled-by-single-abort:" ++ field t 1) else []) ++
